@@ -8,7 +8,7 @@ class PROP(Prop):
     id = "C20"
     profiles = ["debug", "release"]
     rule = ("every typed method x replies of the matching function code whose item count / echoed fields are smaller than, equal to, "
-            "larger than requested (incl. 0, 1, byte-boundary +-1, maximal), each echoed field of a write reply perturbed on its own, plus exception replies; every typed method x replies of every OTHER kind (all response variants, the serial-line codes 0x07/0x0B/0x0C/0x18, exceptions of other functions, custom codes), whole and split at every offset; TCP and RTU; debug and release. "
+            "larger than requested (incl. 0, 1, byte-boundary +-1, maximal), each echoed field of a write reply perturbed on its own, plus exception replies; every typed method x replies of every OTHER kind (all response variants, the serial-line codes 0x07/0x0B/0x0C/0x18, exceptions of other functions, custom codes), whole and split at every offset; the matching reply cut short at every offset and followed by end of stream or a read error; TCP and RTU; debug and release. "
             "non-trivial = reply count or echo differs from the request")
 
     def cases(self, rng, tier):
@@ -74,6 +74,17 @@ class PROP(Prop):
                             fr = cligen.frame(proto, 0, slave, own + extra)
                             cs.append(Case(cligen.cli_line(proto, slave, [cligen.call_op(req, R="d" + fr.hex(), typed=True)]),
                                            {"foreign": True, "req": mb.show_req(req), "pdu": (own + extra).hex(), "split": 0}, prof))
+                # a reply that stops short: the first `cut` bytes of the matching reply arrive (in one piece or byte by byte), then the
+                # server closes or the connection fails -- a result (an error), never a panic, never success
+                for req in typed_reqs:
+                    own = mb.spec_rsp_pdu(mb.matching_rsp(rng, req))
+                    slave = rng.randrange(1, 248)
+                    fr = cligen.frame(proto, 0, slave, own)
+                    for cut in range(len(fr)):
+                        for tail in ("eof", "e:" + rng.choice(cligen.KINDS)):
+                            parts = [fr[:cut]] if cut and rng.random() < 0.6 else [fr[i:i + 1] for i in range(cut)]
+                            cs.append(Case(cligen.cli_line(proto, slave, [cligen.call_op(req, R=mb.rscript(parts, [tail]), typed=True)]),
+                                           {"foreign": True, "req": mb.show_req(req), "pdu": "(first %d bytes of its own reply, then %s)" % (cut, tail), "split": cut}, prof))
                 for req in typed_reqs:
                     for pdu in foreign:
                         if len(pdu) > 1 and pdu[0] == mb.req_fc(req):
